@@ -760,6 +760,7 @@ def dec_gate(F, b):
         dl = t["dest"]["l"] if not t["dest"]["p"] else None
         # find the switch that tests the result
         found = None
+        cands = []
         for sj, bl in enumerate(b["blocks"]):
             tt = bl["term"]
             if tt["k"] != "switch":
@@ -783,7 +784,19 @@ def dec_gate(F, b):
                 continue
             o = B.origin_local(src)
             if o.get("kind") == "call" and o["term"] is t:
-                found = (sj, tt, c, k)
-                break
+                cands.append((sj, tt, c, k))
+        if found is None and cands:
+            # several branches may look at the old value (`debug_assert!(old != 0)` next to the real test): the gate is the
+            # comparison with 1 if there is one; otherwise the first that is not an assertion (a branch straight into a panic)
+            def is_assert(cand):
+                for tg in cfg.successors(cand[1], with_unwind=False):
+                    tb = b["blocks"][tg]["term"]
+                    if tb["k"] == "call" and tb.get("target") is None and model.classify((tb.get("resolved") or {}).get("def", "") if isinstance(tb.get("resolved"), dict) else (tb.get("callee") or ""))[0] == model.PANIC:
+                        return True
+                return bool((cand[1].get("span") or {}).get("macros"))
+
+            gate1 = [x for x in cands if x[3] == 1 and x[2]["op"] in ("Eq", "Ne")]
+            plain = [x for x in cands if not is_assert(x)]
+            found = (gate1 or plain or cands)[0]
         res.append((bi, t, found, B))
     return res
